@@ -162,7 +162,13 @@ theorem onControl_inv (d : Disp) (c : Ctl) (h : TInv m d) : TInv m (d.onControl 
     · split
       · exact h
       · exact (setSlots_same _ _ _).inv h
-  | shutdown k => exact removeKey_inv d k h
+  | shutdown k owner =>
+    simp only [onControl]
+    split
+    · exact removeKey_inv d k h
+    · split
+      · exact removeKey_inv d k h
+      · exact h
 
 theorem onMaybeConnectAck_inv (d : Disp) (addr : Nat) (hd : Header) (h : TInv m d) : TInv m (d.onMaybeConnectAck addr hd).1 := by
   unfold onMaybeConnectAck
@@ -414,7 +420,7 @@ theorem onSyn_keeps (d : Disp) (remote : Nat) (hd : Header) : Keeps d (d.onSyn r
   · exact onSynLoop_keeps _ _ _ _
   · exact Keeps.refl d
 
-theorem onControl_keeps (d : Disp) (c : Ctl) (hc : ∀ k, c ≠ .shutdown k) : Keeps d (d.onControl c).1 := by
+theorem onControl_keeps (d : Disp) (c : Ctl) (hc : ∀ k o, c ≠ .shutdown k o) : Keeps d (d.onControl c).1 := by
   cases c with
   | connectRequest addr token =>
     simp only [onControl]
@@ -439,7 +445,7 @@ theorem onControl_keeps (d : Disp) (c : Ctl) (hc : ∀ k, c ≠ .shutdown k) : K
     · split
       · exact Keeps.refl d
       · exact (setSlots_same _ _ _).keeps
-  | shutdown k => exact absurd rfl (hc k)
+  | shutdown k o => exact absurd rfl (hc k o)
 
 end UtpVerif.Model.Disp
 
@@ -562,7 +568,11 @@ theorem onControl_noDeliver (d : Disp) (c : Ctl) : NoDeliver (d.onControl c).2 :
     split
     · exact NoDeliver.nil
     · split <;> exact NoDeliver.nil
-  | shutdown k => exact NoDeliver.nil
+  | shutdown k o =>
+    simp only [onControl]
+    split
+    · exact NoDeliver.nil
+    · split <;> exact NoDeliver.nil
 
 theorem onMaybeConnectAck_noDeliver (d : Disp) (addr : Nat) (hd : Header) : NoDeliver (d.onMaybeConnectAck addr hd).2 := by
   unfold onMaybeConnectAck
